@@ -152,13 +152,14 @@ contract(Contract(
     setup=self_setup,
     calls={"self.render_children": render_child("RENDER_CHILDREN")},
     ensures={
-        # exactly one separator line (the continuation prefix without trailing blanks + newline) before the item iff
+        # exactly one separator line (the continuation prefix without its trailing blanks - leading indentation kept - + newline) before the item iff
         # the list is loose and the break is not suppressed; nothing else is emitted besides the children
         "separator": Clause(lambda ex: _item_post(ex)),
     },
     canaries=[
         ("if not self._current_list_tight:", "if self._current_list_tight:"),
-        ('result += self._second_prefix.strip() + "\\n"', 'result += self._second_prefix + "\\n"'),
+        ('result += self._second_prefix.rstrip() + "\\n"', 'result += self._second_prefix + "\\n"'),
+        ('result += self._second_prefix.rstrip() + "\\n"', 'result += self._second_prefix.strip() + "\\n"'),
         ("                self._suppress_item_break = False\n", "                pass\n"),
     ],
 ))
@@ -172,7 +173,7 @@ def _item_post(ex):
         return False
     rc = calls[0][2]
     tight, sup = ex.b(ex.truth(old["_current_list_tight"])), ex.b(ex.truth(old["_suppress_item_break"]))
-    sep = ex.concat([ex.wrap(ex.mk_strip("strip", ex.z(old["_second_prefix"])), "str"), "\n"])
+    sep = ex.concat([ex.wrap(ex.mk_strip("rstrip", ex.z(old["_second_prefix"])), "str"), "\n"])
     res = env["result"]
     emits = z3.And(z3.Not(tight), z3.Not(sup))
     sup_at_call = ex.b(ex.truth(calls[0][1]["suppress"]))
@@ -183,3 +184,39 @@ def _item_post(ex):
         z3.Implies(z3.And(z3.Not(tight), sup), z3.Not(sup_at_call)),
         z3.Implies(tight, sup_at_call == sup),
         z3.Implies(emits, sup_at_call == sup))
+
+
+# --------------------------------------------------------------------------- render_quote
+def _quote_children_in_container(ex):
+    """the children are rendered once, inside the '> ' container (both prefixes extended by '> ')"""
+    calls = [e for e in ex.log if e[0] == "RENDER_CHILDREN"]
+    if len(calls) != 1:
+        return False
+    old = ex.old_envs[0]["self"].fields
+    at = calls[0][1]
+    return z3.And(ex.b(ex.truth(ex.eq(at["prefix"], ex.concat([old["_prefix"], "> "])))),
+                  ex.b(ex.truth(ex.eq(at["second"], ex.concat([old["_second_prefix"], "> "])))))
+
+
+contract(Contract(
+    target=M + ":MarkdownNormalizer.render_quote",
+    props=["C10", "C12"],
+    params={"element": "ref:Element"},
+    self_cls="MarkdownNormalizer",
+    heap=HEAP,
+    setup=self_setup,
+    calls={"self.render_children": render_child("RENDER_CHILDREN"),
+           "self.container": Callee("ctxgen", target=M + ":MarkdownNormalizer.container")},
+    ensures={
+        # contract R for a block that ends an item: the break before the *next* item is not suppressed (C10: loose
+        # separates every item; preserve keeps the authored blank line), whatever the children left behind
+        "suppress_cleared_on_exit": "not self._suppress_item_break",
+        "prefix_consumed": "self._prefix == self._second_prefix",
+        "second_restored": "self._second_prefix == old(self._second_prefix)",
+        "children_in_container": Clause(_quote_children_in_container),
+    },
+    canaries=[
+        ("        self._suppress_item_break = False\n", "        pass\n", None, ["post[suppress_cleared"]),
+        ('with self.container("> ", "> "):', 'with self.container("> ", ""):', None, ["post[children_in_container"]),
+    ],
+))
